@@ -11,10 +11,11 @@ PRESET_NAMES = ("default", "octet_rule", "hypervalent")
 def set_table(sf, name):
     """install table `name` in the library and return the dict the oracles should use.
     The oracle side reads the table back through the public getter (C12 checks getter == setter)."""
+    # names and keys are passed as freshly built str objects (equal to, never identical with, a literal inside the library)
     if name in PRESET_NAMES:
-        sf.set_semantic_constraints(name)
+        sf.set_semantic_constraints("".join(list(name)))
     else:
-        sf.set_semantic_constraints(dict(CUSTOM[name]))
+        sf.set_semantic_constraints({"".join(list(k)): v for k, v in CUSTOM[name].items()})
         got = sf.get_semantic_constraints()
         if got != CUSTOM[name]:
             raise RuntimeError("HARNESS: table %s not installed faithfully (C12's business): %r" % (name, got))
